@@ -298,13 +298,24 @@ def req_work(shard, tier, viols, stats, counters, samples):
         from vm import c12
         mod = C.get_module(name)
         stray = []
+        pool = []
         if name in c12.SLICES:
-            ds = c12.date_sources(name, mod, rng, 2, require_valid=False)
-            stray += rng.sample(ds, min(len(ds), 40 if tier == 'quick' else 600))
-        hs = [x for _cls, _pc, x in gen.hostile_strings(nums[:1], 'quick', rng) if len(x) < 200]
-        stray += rng.sample(hs, min(len(hs), 25 if tier == 'quick' else 400))
-        fe = C.synth_field_extremes(name, rng, k=1, raw=True, cap=60)
-        stray += rng.sample(fe, min(len(fe), 10 if tier == 'quick' else 200))
+            pool += c12.date_sources(name, mod, rng, 2, require_valid=False)
+        pool += [x for _cls, _pc, x in gen.hostile_strings(nums[:4], 'quick', rng) if len(x) < 200]
+        pool += C.synth_field_extremes(name, rng, k=1, raw=True, cap=200)
+        # pre-screen with direct calls (one module instead of all of them per request): every input on which this
+        # module's is_valid() leaves with a stray exception is sent through the application, plus a sample of the rest
+        seen_sites = {}
+        for x in pool:
+            o = C.outcome(mod.is_valid, x)
+            if o[0] == 'exc':
+                k2 = (o[1], o[2])
+                if seen_sites.get(k2, 0) < 3:
+                    seen_sites[k2] = seen_sites.get(k2, 0) + 1
+                    stray.append(x)
+        counters['prescreened_inputs'] = counters.get('prescreened_inputs', 0) + len(pool)
+        counters['prescreen_stray_exceptions'] = counters.get('prescreen_stray_exceptions', 0) + len(stray)
+        stray += rng.sample(pool, min(len(pool), 20 if tier == 'quick' else 400))
         for v in stray:
             queries.append(('stray:' + name, 'number=' + quote(v)))
     if shard['name'].endswith('00'):
